@@ -22,7 +22,13 @@ fn v5x(s: &In) -> bool {
 }
 
 fn limits(s: &In) -> (usize, usize) {
-    (s.cfg.ep.max_receive as usize, s.cfg.ep.max_receive_size)
+    // v5 server: the limit is what the CONNACK advertised - the application's own value when it set one in the
+    // handshake acknowledgement, whatever the server-wide configuration says
+    let n = match (s.cfg.ep.ver, s.cfg.ep.role, s.cfg.ep.hs_receive_max) {
+        (Ver::V5, Role::Server, Some(adv)) => adv,
+        _ => s.cfg.ep.max_receive,
+    };
+    (n as usize, s.cfg.ep.max_receive_size)
 }
 
 /// handlers entered and neither exited nor dropped, with the size of their packets
@@ -250,6 +256,30 @@ pub fn configs(tier: Tier) -> Vec<InCfg> {
                 });
             }
         }
+    }
+    // v5 server: the application advertises its own Receive Maximum in the handshake acknowledgement, different from
+    // the server-wide max_receive (larger than it; and with the server-wide value 0 = unlimited): the advertised value
+    // is the limit, in both directions (seeded change C12_r9 enforced the smaller of the two, and nothing at all with 0)
+    for (cfg_n, adv) in [(1u16, 2u16), (0, 1), (3, 1)] {
+        let mut ep = EpCfg::new(Ver::V5, Role::Server);
+        ep.max_receive = cfg_n;
+        ep.hs_receive_max = Some(adv);
+        ep.handler_auto = false;
+        v.push(InCfg {
+            ep,
+            connect_props: vec![],
+            alphabet: vec![q(1, 5), q(2, 26), q(0, 5)],
+            prologue: vec![],
+            max_len: if tier == Tier::Quick { 3 } else { 4 },
+            outcomes: vec![GateOutcome::Ok],
+            poutcomes: vec![GateOutcome::Ok],
+            cork: false,
+            judge: J_C12,
+            app_sends: vec![],
+            skip_connect: false,
+            known: vec![],
+            bp: 0,
+        });
     }
     // bursts: several publishes arriving in one read (corked writes), v3 server count limit
     for &n in &[1u16, 2] {
